@@ -115,6 +115,12 @@ def check_set(b, cons, tmpdir, rnd, frs):
     except Exception as e:
         valid = False
     b.check('C09.valid-utf8-json', valid, w, t1[:200])
+    if valid:
+        # independent expectation: every field that was given at least one known constraint kind is written, under its
+        # own name (whatever characters the name begins with), in the order given
+        want_fields = [n for n, fc in cons['fields'].items() if any(k in VALUES for k in fc)]
+        b.check('C09.every-field-with-constraints-is-written', list(parsed.get('fields', {})) == want_fields, w,
+                'fields given %r, written %r' % (want_fields, list(parsed.get('fields', {}))))
     b.check('C09.no-trailing-whitespace', all(l == l.rstrip() for l in t1.split('\n')) and t1.endswith('\n'), w)
     path = os.path.join(tmpdir, 'c.tdda')
     with open(path, 'w', encoding='utf-8') as f:
